@@ -766,7 +766,23 @@ class SV:
         raise Realize('int() of symbolic value')
 
     def __round__(s, n=None):
-        raise Realize('round() of symbolic value')
+        """Python's round(): nearest integer, ties to even -- as a fresh integer with its exact definition"""
+        if n is not None:
+            raise Realize('round(x, n) of symbolic value')
+        c = Ctx.cur
+        t = z3.simplify(s.t)
+        cv = const_of(t)
+        if cv is not None:
+            return round(cv)
+        key = ('round', t.get_id())
+        if key not in c.memo:
+            c.fresh += 1
+            k = z3.Int('round!%d' % c.fresh)
+            c.memo[key] = (k, t)
+            kr = z3.ToReal(k)
+            c.pc.append(z3.Or(z3.And(t - kr < RV(0.5), kr - t < RV(0.5)),
+                              z3.And(z3.Or(t - kr == RV(0.5), kr - t == RV(0.5)), k % 2 == 0)))
+        return SInt(c.memo[key][0])
 
     def __complex__(s):
         raise Realize('complex() of symbolic value')
